@@ -914,9 +914,10 @@ class Atoms:
 
         if self.cell is not None:
             a, b, c, alpha, beta, gamma = self.cell_abc_alpha_beta_gamma()
-            block['_cell_length_a'] = a
-            block['_cell_length_b'] = b
-            block['_cell_length_c'] = c
+            # lengths are recomputed from the cell vectors on load; rounding keeps re-written files textually identical
+            block['_cell_length_a'] = round(float(a), 10)
+            block['_cell_length_b'] = round(float(b), 10)
+            block['_cell_length_c'] = round(float(c), 10)
             block['_cell_angle_alpha'] = "%.4f" % alpha
             block['_cell_angle_beta']  = "%.4f" % beta
             block['_cell_angle_gamma'] = "%.4f" % gamma
